@@ -837,6 +837,8 @@ class Interp:
             return o.__pyvc_getattr__(self, name, node)
         if isinstance(o, Unknown):
             return Unknown(o.name + "." + name)
+        if name == "__class__" and isinstance(o, (Z, XR, Fraction, int, bool)):
+            return PyType(pytype_name(o))
         if isinstance(o, (Z, XR, Fraction, int, bool)) or o is None:
             # plain numbers have no such attributes (e.g. int.chart): the `resolves` obligation kind
             raise PyRaise("AttributeError", f"'{pytype_name(o)}' object has no attribute '{name}'", node)
